@@ -21,8 +21,11 @@ SPEC = {
     "level": "proof",
     "what_violation": "response data of a dynamic schema differs from the specification's execution algorithm",
     "rule": ("schemas built with the dynamic-schema API: the type system of harness/src/family.rs (5 objects x 18 fields, interfaces Node/Named, "
-             "union Pair, enum Kind, every list/nullability wrapper) plus generated type systems (2-5 objects, 0-2 interfaces, 0-2 unions, an enum, "
-             "nested list wrappers), dumped from the library's registry; data-driven resolvers returning None / FieldValue::NULL / values / lists / "
+             "union Pair, enum Kind, every list/nullability wrapper), a fixed interface hierarchy (P <- Ch <- G with objects implementing {P}, {Ch,P}, {G,Ch,P}, {}; "
+             "union of all) plus generated type systems (2-5 objects, 0-3 interfaces with interface-implements-interface and objects implementing "
+             "various subsets, 0-2 unions, an enum, nested list wrappers, fields typed by every object/interface/union), dumped from the library's registry; "
+             "type conditions range over every overlapping object/interface/union (incl. ones that do not apply to the runtime object) and, without "
+             "validation (fast mode), over every composite type; data-driven resolvers returning None / FieldValue::NULL / values / lists / "
              "owned_any(+with_type); generated documents (aliases, repeated keys, named/inline fragments on object/interface/union conditions, "
              "@skip/@include with literals, variables and variable defaults), variables and worlds (3% resolver faults in a quarter of the worlds, "
              "wrong-kind leaves / non-member references in 40%, null as value in a third); fixed corpus of finding witnesses first; "
@@ -32,7 +35,8 @@ SPEC = {
     "assumptions": ["resolvers are the data-driven resolvers of harness/src/bin/c02.rs (pure functions of node id and field); the conversion of a world outcome "
                     "into a FieldValue is part of the resolver and mirrored by hfails in DynExec.v",
                     "documents accepted by the real validator (rejected ones are counted, not judged)",
-                    "no custom scalars with validators, input objects, interface inheritance or introspection fields in the generated cases; "
+                    "no custom scalars with validators, input objects or introspection fields in the generated cases; objects implementing an interface list its "
+                    "parent interfaces explicitly (as the specification requires); "
                     "floats are finite; strings returned for enum-typed fields are never member names",
                     "the specification is Exec.spec_exec: an outcome that does not conform to the declared field type is a field error of that field"],
 }
